@@ -156,7 +156,7 @@ class Model:
 
 
 # ---------------------------------------------------------------- the oracle: C10's statement on real answers
-# layout classes in which the EAGER reader is the one that loses instances (its int ids, its MAX_COMMENT_LENGTH)
+# layout classes in which the EAGER reader is (id-above-int-max) or was (comment-above-8192, before C01-9) the one that loses instances
 EAGER_LOSES = ("id-above-int-max", "comment-above-8192")
 
 
@@ -266,7 +266,7 @@ def check_file(exe, env, model, workdir, tag, text, off, pop, orders, extra_prob
         problems.append(("property", kind, det))
         if first_only:
             return problems
-    if cls in EAGER_LOSES:
+    if cls in EAGER_LOSES and set(eager) != {x["id"] for x in pop}:
         return problems       # the eager reader is not the population here: nothing further to compare against
     # model vs implementation: index
     for fld in ("count", "kw", "fwd", "rev", "dep"):
@@ -485,6 +485,13 @@ def run(ctx):
         "instance ids below 2^31 (the eager reader stores ids in int)",
         "one data section, one file per lazyInstMgr",
     ]
+    # Props/C10 imports the eager reader's model (Props/C01): its regenerated tables are refreshed too; an extractor of theirs that no
+    # longer matches is their broken tie - recorded here, the last generated version is used
+    from vlib import lean as L0
+    _, ferrs = L0.regenerate(["p21rw", "attrnull", "stepfile", "enums"], repo=B.REPO)
+    if ferrs:
+        ctx.cov["foreign_extractor_errors"] = ferrs
+        ctx.assumptions.append("tables of the eager reader's model (owned by C01/C15) could not be refreshed: " + "; ".join(ferrs)[:300])
     proof_ok = ctx.lean("StepModel.Props.C10", exes=["m_c10"], extractors=["lazy"])
     if not proof_ok:
         from vlib import lean as L
@@ -552,9 +559,6 @@ def run(ctx):
     bpop, lines, k = [], [], 0
     for L in Ls:
         for what in ("str", "cmt", "ws"):
-            if what == "cmt" and L > 8192:
-                continue          # the EAGER reader gives up on a comment longer than MAX_COMMENT_LENGTH = 8192 and skips the instance
-                                  # (class layout:comment-above-8192, KNOWN_FINDINGS)
             k += 1
             prev = ("ref", k - 1) if k > 1 else ("null",)
             body = ("s" * L) if what == "str" else what
